@@ -223,7 +223,7 @@ def check_case(case):
     f = xfn.make_fn(argnames + extra, kind=fkind, name="f06", defaults=defaults)
     f1 = xfn.make_fn(argnames + extra, kind=fkind, name="f06", version=1,
                      defaults=defaults)
-    d = core.fresh_dir("c06.results.xyz-batch-1")
+    d = core.fresh_dir("c06.results[1].xyz-batch-1")
     dt = core.fresh_dir("c06twin")
     vio = []
 
